@@ -37,7 +37,7 @@ ID_STYLES = ["part_%02d", "araC-pBAD-%d", "kanR-cassette-v2-%d", "gb|X%d.1|", "m
 
 def goals(tier):
     return ["default-id", "requested-id", "k=3", "annotated-inputs", "unused-module-in-comment", "two-level-nested-provenance",
-            "genbank-roundtrip", "rotated-inputs", "long-chain-comment", "product-named-like-one-of-its-parts", "inputs-renamed-after-a-first-use", "participant-without-an-id"]
+            "genbank-roundtrip", "rotated-inputs", "long-chain-comment", "product-named-like-one-of-its-parts", "inputs-renamed-after-a-first-use", "participant-without-an-id", "accession-version-identifiers"]
 
 
 def annotate(s, name):
@@ -158,9 +158,12 @@ def run_single(st, scn):
         st.filtered += 1
         return None
     vec, mods = asm.pieces_to_plasmids(base)
-    strings = {"vec-%s" % enz: vec}
+    ver = (lambda j: ".%d" % (j + 1)) if variant == "versioned-ids" else (lambda j: "")      # ACCESSION.VERSION identifiers
+    strings = {"vec-%s%s" % (enz, ver(0)): vec}
     for i, m in enumerate(mods):
-        strings["mod%d-%s" % (i, enz)] = m
+        strings["mod%d-%s%s" % (i, enz, ver(i + 1))] = m
+    if variant == "versioned-ids":
+        st.goal("accession-version-identifiers")
     names = list(strings)
     recs = {}
     for j, (name, s) in enumerate(strings.items()):
@@ -243,7 +246,7 @@ def run_unit(unit, st, tier):
     if kind == "single":
         enz, k = arg
         for scheme in (0, 1):
-            for variant in ("plain", "annotated", "rotated", "with-unused-module", "renamed-after-use", "anonymous-participant"):
+            for variant in ("plain", "annotated", "rotated", "with-unused-module", "renamed-after-use", "anonymous-participant", "versioned-ids"):
                 for ids in IDS:
                   for anon in (range(k + 1) if variant == "anonymous-participant" else [None]):
                     if variant == "anonymous-participant" and ids not in (IDS[0], IDS[1]):
